@@ -434,9 +434,9 @@ def one_scaling_state(rep, F, E, tag):
         ku = [c for c in s.calls if c.callee.name == 'update' and (c.callee.trait or '').endswith('KKTSystem') and c.bb in lb]
         ks = [c for c in s.calls if c.callee.name == 'solve' and (c.callee.trait or '').endswith('KKTSystem') and c.bb in lb]
         sc = [c for c in s.calls if c.callee.name == 'scale_cones' and c.bb in lb]
-        if len(ku) != 1 or len(ks) < 2 or len(sc) != 1:
+        if len(ku) != 1 or len(ks) < 2 or len(sc) < 1:
             raise AnchorError('kktsystem.update / solve / scale_cones sites in the main loop: %d/%d/%d' % (len(ku), len(ks), len(sc)))
-        R.check(s.dominates(sc[0].bb, ku[0].bb), 'scale-before-update' + tag, 'scale_cones does not precede kktsystem.update', s.loc(ku[0].sp))
+        R.check(any(s.dominates(c.bb, ku[0].bb) for c in sc), 'scale-before-update' + tag, 'scale_cones does not precede kktsystem.update', s.loc(ku[0].sp))
         for k in ks:
             R.check(s.dominates(ku[0].bb, k.bb), 'update-before-solve|%d%s' % (k.line, tag), 'kktsystem.solve is not preceded by kktsystem.update', s.loc(k.sp))
         last = ks[-1]
